@@ -85,6 +85,20 @@ func runC18(c *core.Ctx) {
 	}
 	cases := GenValidationCases(c, nSchemas, per, nil)
 	cases = append(cases, TypeMatrixLiterals()...)
+	// the small-scope family (every second document in the quick tier) and the scale family up to
+	// a hundred elements: more than a hundred errors spread over several rules
+	light := SmallScopeLight()
+	for i, k := range light {
+		if !c.Quick || i%2 == 0 {
+			cases = append(cases, k)
+		}
+	}
+	scale := ScaleDocsUpTo(300, 4097)
+	for i := range scale {
+		scale[i].ImplOnly = true
+	}
+	cases = append(scale, cases...)
+	c.Count("small_scope_documents", int64(len(light)))
 	all := append(append([]string{}, DefaultRuleNames...), NoSuggestRuleNames...)
 	// random subsets and orders, fixed for the run
 	subsets := make([][]string, nSubsets)
@@ -129,6 +143,9 @@ func runC18(c *core.Ctx) {
 		for _, r := range all {
 			single[r], _ = validateImpl(s, k.Query, []string{r})
 			// tie: singleton rule lists against the model
+			if k.ImplOnly {
+				continue
+			}
 			args := valArgs(r, k)
 			impl := c.Impl(w, "val", args...)
 			v, cur, none := c.Tie(w, "val", impl, args...)
@@ -145,7 +162,7 @@ func runC18(c *core.Ctx) {
 		if none, _ := validateImpl(s, k.Query, []string{}); len(none) != 0 {
 			report("empty-rule-list-reports-errors", map[string]interface{}{"errors": none})
 		}
-		{
+		if !k.ImplOnly {
 			args := valArgs("-", k)
 			impl := c.Impl(w, "val", args...)
 			if v, cur, none := c.Tie(w, "val", impl, args...); v == core.Violation {
@@ -164,6 +181,9 @@ func runC18(c *core.Ctx) {
 			}
 			if total != len(got) {
 				report("errors-not-union-of-members", map[string]interface{}{"subset": sub, "errors": got})
+			}
+			if k.ImplOnly {
+				continue
 			}
 			args := valArgs(strings.Join(sub, ","), k)
 			impl := c.Impl(w, "val", args...)
